@@ -21,6 +21,7 @@ use vibesql_types::SqlValue as V;
 
 const SIG_ZERO_COL: &str = "C20/zero-column-table-row-count-loop";
 const SIG_WHEN_DEPTH: &str = "C20/trigger-when-expression-unbounded-recursion";
+const SIG_SQL_PREVIEW: &str = "C20/sql-dump-error-preview-slices-inside-character";
 
 // ------------------------------------------------------------------------------------ worker
 
@@ -345,7 +346,12 @@ fn other_case(cx: &mut Ctx, rep: &mut Report, fmt: &str, ext: &str, kind: &str, 
     rep.case(&format!("{} {} {}", fmt, kind, hex(bytes)), kind != "valid");
     rep.count(&format!("{}_{}_{}", fmt, kind, out.class()));
     if !out.clean() {
-        rep.fail(FailKind::Oracle, None, &format!("load ({}) on a damaged file: {}", fmt, out.class()), &format!("{}\nformat: {}\nfile bytes (hex): {}\noutcome: {:?}", origin, fmt, hex(bytes), out));
+        // load_sql_dump's error preview `&s[..100]` (executor/persistence.rs truncate_for_error)
+        let sig = match &out {
+            Outcome::Panic(m) if fmt == "sql" && m.contains("end byte index 100 is not a char boundary") => Some(SIG_SQL_PREVIEW),
+            _ => None,
+        };
+        rep.fail(FailKind::Oracle, sig, &format!("load ({}) on a damaged file: {}", fmt, out.class()), &format!("{}\nformat: {}\nfile bytes (hex): {}\noutcome: {:?}", origin, fmt, hex(bytes), out));
     }
 }
 
@@ -453,6 +459,11 @@ fn main() {
         if !out.clean() {
             rep.fail(FailKind::Oracle, Some(SIG_WHEN_DEPTH), &format!("load_binary: {} on a trigger WHEN expression nested 400000 deep", out.class()), &format!("file: header, 4 zero counts, trigger count 1, name TR, table T, timing 1, event 0, granularity 0, has_when 1, then 400000 bytes 06 (IsNull)\noutcome: {:?}", out));
         }
+    }
+    // P5b SQL dump: a failing statement longer than 100 bytes with a multi-byte character across byte 100
+    {
+        let stmt = format!("INSERT INTO NOSUCH VALUES ('{}漢漢漢');\n", "x".repeat(71));
+        other_case(&mut cx, &mut rep, "sql", "sql", "crafted", stmt.as_bytes(), "failing statement whose 100th byte is inside a multi-byte character");
     }
     // P6 tiny inputs, all formats
     for b in [&b""[..], b"V", b"VBSQL", b"VBSQL\x02", b"{", b"{}", b"\x28\xb5\x2f\xfd", b"\x28\xb5\x2f\xfd\x00\x00", b"CREATE", b"'", b"INSERT INTO t VALUES ('"] {
